@@ -38,7 +38,8 @@ InheritedNsOnly(step, c) ==
   /\ step.post.con[c] = step.pre.con[c]
   /\ step.post.ns[c] # step.pre.ns[c]
   /\ SeqToSet(step.pre.ns[c].reg) \subseteq SeqToSet(step.post.ns[c].reg)
-  /\ \A e \in SeqToSet(step.post.ns[c].reg) \ SeqToSet(step.pre.ns[c].reg) : e \in SeqToSet(step.pre.ns[P].reg)
+  /\ \A e \in SeqToSet(step.post.ns[c].reg) \ SeqToSet(step.pre.ns[c].reg) :
+        \E e2 \in SeqToSet(step.pre.ns[P].reg) : e2[2] = e[2]      \* (possibly under a fresh prefix)
   /\ \/ step.post.ns[c].dflt = step.pre.ns[c].dflt
      \/ (step.pre.ns[c].dflt = NONE /\ step.post.ns[c].dflt = step.pre.ns[P].dflt)
 UnifiesDup(step, c) ==
@@ -103,6 +104,10 @@ KnownFinding(step, c) ==
     [] c = "C01_rt"     -> KF_rt(step)
     [] c = "C02_rt"     -> KF_rt(step)
     [] c = "C10_read_xml" -> IF ShadowExplains(step.src, SpecReadXML(step.ast)) THEN "KF-C03-shadow" ELSE ""
+    [] c = "C13_pure" ->
+         LET changed == {h \in DOMAIN step.pre.con : ~SameCon(step, h)} IN
+         IF changed # {} /\ \A h \in changed : InheritedNsOnly(step, h) /\ UnifiesDup(step, h)
+         THEN "KF-unified-registers" ELSE ""
     [] c = "C06_grammar" -> KF_C06_grammar(step)
     [] c = "C06_denotes" -> IF ShadowExplains(step.src, SpecReadProvN(step.ast)) THEN "KF-C03-shadow" ELSE ""
     [] c = "C10_read_json" -> IF ShadowExplains(step.src, SpecReadJSON(step.ast)) THEN "KF-C03-shadow" ELSE ""
